@@ -80,7 +80,8 @@ def decide_text(job):
     except (pathsat.Unsupported, SyntaxError) as ex:
         return dict(base, status="inconclusive", why="E2: %s" % ex)
     out["reads"] = pr["reads"]
-    real = [v for v in pr["violations"] if e1.unbound_kind(spec, v["name"]) == v["name"]]
+    tl = text.split("\n")
+    real = [v for v in pr["violations"] if e1.unbound_kind(spec, v["name"], tl[v["line"] - 1] if 0 < v["line"] <= len(tl) else "") == v["name"]]
     if real:
         v = real[0]
         got = pathsat.replay_path(text, user, v)
@@ -104,8 +105,8 @@ def decide_text(job):
         sig = dict(spec.get("tags") or {}, engine="E1", cls=cls, family2="seeds")
         if cls == "model-error:NameError":
             import re
-            m = re.search(r"NameError: (\w+)", " ".join(diffs))
-            sig["unbound"] = e1.unbound_kind(spec, m.group(1) if m else "?")
+            m = re.search(r"NameError: (\w+)(?: @ ([^;|]*))?", " ".join(diffs))
+            sig["unbound"] = e1.unbound_kind(spec, m.group(1) if m else "?", (m.group(2) or "") if m else "")
         return dict(out, status="violation", confirmed=bool(diffs),
                     why="text emitted under PYTHONHASHSEED in %s: %s | concrete replay: %s" % (seeds[:4], r.get("why"), "; ".join(diffs[:3])),
                     sig=sig, replay={"spec": spec, "metrics": metrics, "text": text, "seeds": seeds, "presence": pres, "differences": diffs})
